@@ -269,6 +269,11 @@ func verifySignature(p7 *PKCS7, signer signerInfo) error {
 
 func getSignatureAlgorithmByHash(hash Hash, oid asn1.ObjectIdentifier) SignatureAlgorithm {
 	switch hash {
+	case SHA1:
+		switch {
+		case oid.Equal(oidEncryptionAlgorithmRSA), oid.Equal(oidSignatureSHA1WithRSA):
+			return SHA1WithRSA
+		}
 	case SM3:
 		switch {
 		case oid.Equal(oidSM3withSM2):
@@ -568,6 +573,7 @@ type SignedData struct {
 	sd            signedData
 	certs         []*Certificate
 	messageDigest []byte
+	data          []byte
 }
 
 // Attribute represents a key value pair attribute. Value must be marshalable byte
@@ -603,7 +609,7 @@ func NewSignedData(data []byte) (*SignedData, error) {
 		Version:                    1,
 		DigestAlgorithmIdentifiers: []pkix.AlgorithmIdentifier{digAlg},
 	}
-	return &SignedData{sd: sd, messageDigest: md}, nil
+	return &SignedData{sd: sd, messageDigest: md, data: data}, nil
 }
 
 type attributes struct {
@@ -672,9 +678,17 @@ func (attrs *attributes) ForMarshaling() ([]attribute, error) {
 
 // AddSigner signs attributes about the content and adds certificate to payload
 func (sd *SignedData) AddSigner(cert *Certificate, pkey crypto.PrivateKey, config SignerInfoConfig) error {
+	digestOID, signatureOID, md := oidDigestAlgorithmSHA1, oidSignatureSHA1WithRSA, sd.messageDigest
+	if _, ok := pkey.(*sm2.PrivateKey); ok {
+		// SM2 signers use the SM3 digest of the content
+		digestOID, signatureOID = oidHashSM3, oidSM3withSM2
+		h := SM3.New()
+		h.Write(sd.data)
+		md = h.Sum(nil)
+	}
 	attrs := &attributes{}
 	attrs.Add(oidAttributeContentType, sd.sd.ContentInfo.ContentType)
-	attrs.Add(oidAttributeMessageDigest, sd.messageDigest)
+	attrs.Add(oidAttributeMessageDigest, md)
 	attrs.Add(oidAttributeSigningTime, time.Now())
 	for _, attr := range config.ExtraSignedAttributes {
 		attrs.Add(attr.Type, attr.Value)
@@ -695,13 +709,20 @@ func (sd *SignedData) AddSigner(cert *Certificate, pkey crypto.PrivateKey, confi
 
 	signer := signerInfo{
 		AuthenticatedAttributes:   finalAttrs,
-		DigestAlgorithm:           pkix.AlgorithmIdentifier{Algorithm: oidDigestAlgorithmSHA1},
-		DigestEncryptionAlgorithm: pkix.AlgorithmIdentifier{Algorithm: oidSignatureSHA1WithRSA},
+		DigestAlgorithm:           pkix.AlgorithmIdentifier{Algorithm: digestOID},
+		DigestEncryptionAlgorithm: pkix.AlgorithmIdentifier{Algorithm: signatureOID},
 		IssuerAndSerialNumber:     ias,
 		EncryptedDigest:           signature,
 		Version:                   1,
 	}
 	// create signature of signed attributes
+	listed := false
+	for _, alg := range sd.sd.DigestAlgorithmIdentifiers {
+		listed = listed || alg.Algorithm.Equal(digestOID)
+	}
+	if !listed {
+		sd.sd.DigestAlgorithmIdentifiers = append(sd.sd.DigestAlgorithmIdentifiers, signer.DigestAlgorithm)
+	}
 	sd.certs = append(sd.certs, cert)
 	sd.sd.SignerInfos = append(sd.sd.SignerInfos, signer)
 	return nil
@@ -754,6 +775,9 @@ func signAttributes(attrs []attribute, pkey crypto.PrivateKey, hash crypto.Hash)
 	switch priv := pkey.(type) {
 	case *rsa.PrivateKey:
 		return rsa.SignPKCS1v15(rand.Reader, priv, crypto.SHA1, hashed)
+	case *sm2.PrivateKey:
+		// SM2 signs the message itself (it is hashed with SM3 internally)
+		return priv.Sign(rand.Reader, attrBytes, nil)
 	}
 	return nil, ErrPKCS7UnsupportedAlgorithm
 }
